@@ -200,6 +200,7 @@ func extraC01(r *Run) {
 			}
 			var handlerSaw []*Msg
 			var hmu sync.Mutex
+			reuseSource := i%2 == 1 // the senders overwrite one message value between sends (a send must have taken its own copy)
 			svrR := &scriptServer{}
 			svrR.bidi = func(s grpchantesting.TestService_BidiStreamServer) error {
 				var m Msg // re-used for every receive
@@ -211,8 +212,15 @@ func extraC01(r *Run) {
 					handlerSaw = append(handlerSaw, proto.Clone(&m).(*Msg))
 					hmu.Unlock()
 				}
+				var out Msg // every second run: one value re-used (overwritten) for every send
 				for _, x := range seq {
-					if err := s.Send(x); err != nil {
+					snd := x
+					if reuseSource {
+						out.Reset()
+						proto.Merge(&out, x)
+						snd = &out
+					}
+					if err := s.Send(snd); err != nil {
 						return err
 					}
 				}
@@ -220,14 +228,21 @@ func extraC01(r *Run) {
 			}
 			chR, stopR := tp.mk(svrR)
 			cs, err := chR.NewStream(context.Background(), descBidi, mBidi)
-			c := map[string]interface{}{"transport": tp.name, "op": "reused-destination", "messages": len(seq)}
+			c := map[string]interface{}{"transport": tp.name, "op": "reused-destination", "messages": len(seq), "senders_reuse_one_value": reuseSource}
 			if err != nil {
 				r.Violate(tp.name+"/content/stream-failed", "messages are delivered", err.Error(), c, "")
 				stopR()
 				continue
 			}
+			var outC Msg
 			for _, x := range seq {
-				cs.SendMsg(x)
+				if reuseSource {
+					outC.Reset()
+					proto.Merge(&outC, x)
+					cs.SendMsg(&outC)
+				} else {
+					cs.SendMsg(x)
+				}
 			}
 			cs.CloseSend()
 			var clientSaw []*Msg
